@@ -153,7 +153,7 @@ void ppExGCD(word d[], word da[], word db[], const word a[], size_t n,
 	{
 		// пока u делится на x
 		for (; wwTestBit(u, 0) == 0; wwShLo(u, nu, 1))
-			if (wwTestBit(da0, 0) == 0)
+			if (wwTestBit(da0, 0) == 0 && wwTestBit(db0, 0) == 0)
 			{
 				// da0 <- da0 / x, db0 <- db0 / x
 				wwShLo(da0, m, 1);
@@ -169,7 +169,7 @@ void ppExGCD(word d[], word da[], word db[], const word a[], size_t n,
 			}
 		// пока v делится на x
 		for (; wwTestBit(v, 0) == 0; wwShLo(v, mv, 1))
-			if (wwTestBit(da, 0) == 0)
+			if (wwTestBit(da, 0) == 0 && wwTestBit(db, 0) == 0)
 			{
 				// da <- da / x, db <- db / x
 				wwShLo(da, m, 1);
@@ -204,9 +204,9 @@ void ppExGCD(word d[], word da[], word db[], const word a[], size_t n,
 	}
 	while (!wwIsZero(u, nu));
 	// d <- v
-	wwCopy(d, v, m);
+	wwCopy(d, v, mv);
 	// d <- d * 2^s
-	wwShHi(d, W_OF_B(wwBitSize(d, m) + s), s);
+	wwShHi(d, W_OF_B(wwBitSize(d, mv) + s), s);
 	// очистка
 	s = 0;
 }
